@@ -45,6 +45,11 @@ class Timeout(Exception):
     pass
 
 
+class TooManyHangs(Exception):
+    """a unit stops after its second non-terminating text (each costs the 5 s alarm): the violation is
+    established, the run is reported as not exhaustive"""
+
+
 def _alarm(signum, frame):
     raise Timeout()
 
@@ -138,6 +143,8 @@ def record(u, text, kind, det, part):
         u.violation(f"query:escaped-{det}", f"text {text!r} ({part}): {det} escaped from aw_query.query", {"text": text, "part": part}, size=len(text))
     elif kind == "timeout":
         u.violation("query:does-not-terminate", f"text {text!r} ({part}) did not finish within 5 s", {"text": text, "part": part}, size=len(text))
+        if u.hist["outcome_timeout"] >= 2:
+            raise TooManyHangs()
     elif kind == "deep":
         u.hist["deep_" + det] += 1
 
@@ -150,10 +157,12 @@ def malformed(text):
         return True
 
 
-def _unit_strings(args):
+def _unit_strings(args, box=None):
     first2, n = args
     ds = _G["ds"]
     u = Unit()
+    if box is not None:
+        box.append(u)
     for rest in itertools.product(ALPHABET, repeat=max(0, n - len(first2))):
         s = "".join(first2 + rest)
         u.states += 1
@@ -193,10 +202,12 @@ def edits(t):
     return sorted(out)
 
 
-def _unit_edits(args):
+def _unit_edits(args, box=None):
     texts, double = args
     ds = _G["ds"]
     u = Unit()
+    if box is not None:
+        box.append(u)
     for t in texts:
         es = edits(t)
         if double:
@@ -334,7 +345,25 @@ def _unit_resolution(names):
 
 def _dispatch(x):
     signal.signal(signal.SIGALRM, _alarm)
-    return {"s": _unit_strings, "e": _unit_edits, "r": _unit_resolution}[x[0]](x[1])
+    return {"s": _guard(_unit_strings), "e": _guard(_unit_edits), "r": _unit_resolution}[x[0]](x[1])
+
+
+def _guard(f):
+    import functools
+
+    @functools.wraps(f)
+    def g(args):
+        box = []
+        try:
+            return f(args, box)
+        except TooManyHangs:
+            r = box[0].result()
+            r["extra"] = dict(r.get("extra") or {}, aborted_after_hangs=1)
+            r["exhaustive"] = False
+            r["caps"] = ["a work unit stopped after its second non-terminating query"]
+            return r
+
+    return g
 
 
 def _cfg(ctx):
@@ -371,6 +400,7 @@ def run(ctx):
     pool = mpctx.Pool(ctx.workers)
     it = pool.imap_unordered(_dispatch, units)  # chunksize 1: the iterator then supports next(timeout)
     done = 0
+    hangs = 0
     try:
         while True:
             try:
@@ -388,6 +418,12 @@ def run(ctx):
                 break
             agg.add(r)
             done += 1
+            if (r.get("extra") or {}).get("aborted_after_hangs"):
+                hangs += 1
+                if hangs >= 3:
+                    agg.exhaustive = False
+                    agg.caps.append("exploration stopped after three work units each found two non-terminating queries")
+                    break
     finally:
         pool.terminate()
     agg.extra["corpus_programs"] = len(texts)
